@@ -210,7 +210,6 @@ package util
 //@   loop 1 invariant [untouched-so-far] forall k string :: !#done[k] && !old(has(dst, k)) ==> !has(dst, k)
 //@   loop 1 invariant [source-untouched] dst != nil && src != nil && dst != src && (forall k string :: has(src, k) == old(has(src, k)) && src[k] == old(src[k]))
 
-
 // ---- C11: handing the parent's globals down to a subchart must not write into the parent's tables: what a
 // subchart's defaults add to a nested global table stays in that subchart. (deepCopyMap: a deep copy shares no
 // table with what existed, unless the copy failed and the original is handed back.)
